@@ -68,7 +68,8 @@ func main() {
 	verifrt.SetMode(verifrt.ModeSeq)
 
 	if *worker {
-		os.Exit(runWorker(*tier, *stageName, *shard, *nshards, *rot, time.Unix(*deadlineUnix, 0), *outPath))
+		code := runWorker(*tier, *stageName, *shard, *nshards, *rot, time.Unix(*deadlineUnix, 0), *outPath)
+		os.Exit(code)
 	}
 
 	syscall.Umask(0o022)
